@@ -26,6 +26,7 @@ type C15Case struct {
 	Runs     []string `json:"runs"`  // L1: text runs; L2: pieces (text / comment) ; L3: literal bodies
 	Neighbor int      `json:"neighbor"`
 	Kinds    []string `json:"kinds,omitempty"` // L2: "text" | "line" | "block" per piece
+	Header   bool     `json:"header,omitempty"` // the templates declare $x in the header ({@param}) instead of soydoc
 }
 
 var c15Alphabet = []string{"a", "\x00", "<", ">", " ", "\t", "\r", "\n", "/", "é", "\u00a0", "\u2028", "\v", "\f"}
@@ -44,10 +45,17 @@ var c15Neighbors = []struct{ name, before, after, outBefore, outAfter string }{
 	{"call-with-param", "{call .f}{param x: 2 /}{/call}", "{call .f}{param x}3{/param}{/call}", "F2", "F3"},
 }
 
+// c15Header: the templates of the bundle being built declare their param in the header.
+var c15Header bool
+
 func c15Source(bodies []string) string {
 	var b strings.Builder
 	b.WriteString("{namespace n}\n/** */\n{template .e}E{/template}\n/** @param x */\n{template .f}F{$x}{/template}\n")
 	for i, body := range bodies {
+		if c15Header {
+			fmt.Fprintf(&b, "{template .t%d}{@param x: ?}%s{if false}{$x}{/if}{/template}\n", i, body)
+			continue
+		}
 		fmt.Fprintf(&b, "/** @param x */\n{template .t%d}%s{if false}{$x}{/if}{/template}\n", i, body)
 	}
 	return b.String()
@@ -123,6 +131,8 @@ func hasCommentStart(s string) bool {
 }
 
 func checkC15(c C15Case) Verdict {
+	c15Header = c.Header
+	defer func() { c15Header = false }()
 	nb := c15Neighbors[c.Neighbor%len(c15Neighbors)]
 	switch c.Level {
 	case "L1":
@@ -231,7 +241,7 @@ func checkC15(c C15Case) Verdict {
 }
 
 func genC15(t *rapid.T) C15Case {
-	c := C15Case{Neighbor: rapid.IntRange(0, len(c15Neighbors)-1).Draw(t, "neighbor")}
+	c := C15Case{Neighbor: rapid.IntRange(0, len(c15Neighbors)-1).Draw(t, "neighbor"), Header: rapid.IntRange(0, 2).Draw(t, "header") == 0}
 	switch rapid.IntRange(0, 9).Draw(t, "level") {
 	case 0, 1, 2, 3, 4:
 		c.Level = "L1"
@@ -305,7 +315,7 @@ func c15Exhaustive(t *testing.T, rec *recorder) bool {
 		if len(batch) == 0 {
 			return true
 		}
-		c := C15Case{Level: "L1", Runs: batch, Neighbor: nbi}
+		c := C15Case{Level: "L1", Runs: batch, Neighbor: nbi, Header: (total/400)%2 == 1}
 		histLog(c)
 		v := checkC15(c)
 		rec.mu.Lock()
@@ -317,7 +327,7 @@ func c15Exhaustive(t *testing.T, rec *recorder) bool {
 			// shrink to the single run for the replay file
 			writeFail("C15", c, v.Err)
 			for _, r := range c.Runs {
-				one := C15Case{Level: "L1", Runs: []string{r}, Neighbor: nbi}
+				one := C15Case{Level: "L1", Runs: []string{r}, Neighbor: nbi, Header: c.Header}
 				if v1 := checkC15(one); v1.Err != nil {
 					writeFail("C15", one, v1.Err)
 					t.Errorf("exhaustive tier: %v", v1.Err)
